@@ -29,10 +29,42 @@ def pool_for(rng, ds):
         A(O(x, y), z), O(A(x, y), z), A(O(x, y), O(x, z)), O(A(x, y), A(x, z)),
         N(A(N(x), N(y))), O(x, N(x)), A(x, N(x)),
     ]
+    # an operand that cannot be evaluated (unknown column): the error must come back every time,
+    # also when the node is asked again or sits inside a later query
+    u = dp.e_eq(b"nosuchcol", b"1")
+    directed += [O(x, u), O(x, u), A(x, u), A(x, u), N(O(x, u)), O(u, x), A(y, O(x, u)), O(x, u)]
     pool += directed
     for _ in range(12):
         pool.append(dp.rand_expr(rng, lv, rng.randrange(1, 4), max_arity=3))
     return pool
+
+
+def leaves_first(ds):
+    vals = ds.values()
+    if not vals:
+        return dp.e_eq(b"a", b"1")
+    c = sorted(vals)[0]
+    return dp.e_eq(c, sorted(vals[c])[0])
+
+
+def mutate_tree(rng, e, pool):
+    """A second tree obtained from e by a small change (leaf replaced, operand appended or
+    dropped, or nothing): what a caller does to a query object it reuses."""
+    leaves = [x for x in pool if x[0] == "E"]
+    k = rng.random()
+    if e[0] == "E":
+        return rng.choice(leaves) if leaves else e
+    if e[0] == "N":
+        return ("N", mutate_tree(rng, e[1], pool))
+    kids = list(e[1])
+    if k < 0.35 and kids:
+        i = rng.randrange(len(kids))
+        kids[i] = mutate_tree(rng, kids[i], pool)
+    elif k < 0.65:
+        kids.append(rng.choice(pool))
+    elif k < 0.8 and len(kids) > 1:
+        kids.pop()
+    return (e[0], kids)
 
 
 def gen(rng, tier):
@@ -55,6 +87,10 @@ def gen(rng, tier):
             if i == 0 and hn == 0:
                 a1, b1, c1 = dp.e_eq(b"a", b"1"), dp.e_eq(b"b", b"1"), dp.e_eq(b"c", b"1")
                 seq = [("A", [("O", [a1, c1]), ("O", [b1, c1])]), ("A", [("N", a1), ("N", b1)])]
+            elif hn == 1:
+                a0 = leaves_first(ds)
+                u = dp.e_eq(b"nosuchcol", b"1")
+                seq = [("O", [a0, u]), ("O", [a0, u]), ("N", ("O", [a0, u])), ("A", [a0, u]), ("A", [a0, u]), ("A", [a0, ("O", [a0, u])]), a0]
             else:
                 seq = [rng.choice(pool) for _ in range(rng.randrange(2, 41))]
             w, m, cap = rng.choice(dp.WRITERS), rng.choice(dp.MODES), rng.choice(CAPS)
@@ -69,6 +105,14 @@ def gen(rng, tier):
                 lines.append("HQ " + q.line().split(" ", 1)[1].replace(" 0 ", " ", 1) if False else
                              "HQ %s %s %s %s %s GB %d%s" % (q.qid, ds.did, w, m, dp.enc_expr(e), len(gb), "".join(" " + core.enc_str(c) for c in gb)))
                 qs.append(q)
+            # a query object reused and modified in place between executions
+            for rn in range(2):
+                e1 = rng.choice(pool)
+                e2 = mutate_tree(rng, e1, pool)
+                rq = "%s.r%d" % (hid, rn)
+                lines.append("HREUSE %s %s %s %s %s THEN %s GB 0" % (rq, ds.did, w, m, dp.enc_expr(e1), dp.enc_expr(e2)))
+                qs.append(dp.Query(rq + ".a", ds, w, m, e1, [], 0))
+                qs.append(dp.Query(rq + ".b", ds, w, m, e2, [], 0))
             lines.append("ENDHIST")
             hists.append((hid, ds, w, m, cap, qs))
         lines.append("DROP " + ds.did)
@@ -100,8 +144,16 @@ def hist_lines(h, qs=None):
     hid, ds, w, m, cap, all_qs = h
     qs = all_qs if qs is None else qs
     res = ds.lines() + ["HIST %s %s %s %s %d %d" % (hid, ds.did, w, m, cap, len(qs))]
-    for q in qs:
+    i = 0
+    while i < len(qs):
+        q = qs[i]
+        if q.qid.endswith(".a") and i + 1 < len(qs) and qs[i + 1].qid == q.qid[:-2] + ".b":
+            # a reused-and-modified query object: both executions stay together
+            res.append("HREUSE %s %s %s %s %s THEN %s GB 0" % (q.qid[:-2], ds.did, w, m, dp.enc_expr(q.expr), dp.enc_expr(qs[i + 1].expr)))
+            i += 2
+            continue
         res.append("HQ %s %s %s %s %s GB %d%s" % (q.qid, ds.did, w, m, dp.enc_expr(q.expr), len(q.gb), "".join(" " + core.enc_str(c) for c in q.gb)))
+        i += 1
     return res + ["ENDHIST"]
 
 
